@@ -144,3 +144,28 @@ pub proof fn lemma_retrace_first(es: Seq<Entry>, f: AFrame, k: int)
         assert(t.skip(k) == es.skip(k + 1));
     }
 }
+
+// ---- C04, last clause: whenever method lookup answers, every frame of line-based remapping of that class and method carries that name ----
+pub proof fn lemma_all_frames_carry(es: Seq<Entry>, f: AFrame, m: Seq<char>)
+    requires forall|i: int| 0 <= i < es.len() ==> (#[trigger] es[i]).orig_method == m,
+    ensures forall|k: int| 0 <= k < retrace(es, f).len() ==> (#[trigger] retrace(es, f)[k]).method == m,
+    decreases es.len(),
+{
+    if es.len() > 0 {
+        let t = es.drop_first();
+        assert forall|i: int| 0 <= i < t.len() implies (#[trigger] t[i]).orig_method == m by { assert(t[i] == es[i + 1]); }
+        lemma_all_frames_carry(t, f, m);
+        if applies(es[0], f.line) {
+            let r = seq![entry_out(es[0], f)] + retrace(t, f);
+            assert forall|k: int| 0 <= k < r.len() implies (#[trigger] r[k]).method == m by {
+                if k == 0 { assert(es[0].orig_method == m); } else { assert(r[k] == retrace(t, f)[k - 1]); }
+            }
+        }
+    }
+}
+pub proof fn lemma_method_lookup_agrees_with_line_based_frames(es: Seq<Entry>, f: AFrame)
+    requires unanimous_method(es) is Some,
+    ensures /*@L:frames_carry_the_looked_up_method_name:C04*/ forall|k: int| 0 <= k < retrace(es, f).len() ==> (#[trigger] retrace(es, f)[k]).method == unanimous_method(es)->0,
+{
+    lemma_all_frames_carry(es, f, es[0].orig_method);
+}
